@@ -5,11 +5,14 @@
    What is proved here and what is not:
    - next_pow_of_2: full statement on [1, 2^63], behaviour outside stated; tied to the
      C text by the leaf translator (gen_npo2_eq).
-   - integer parsers: full iff statements, RELATIVE to the Gallina model of the strtol
-     family (Model.strto_core / strtos / strtou), which is assumed libc behaviour and is
-     compared with the real libc on every run of the check.
-   - float parsers: only the wrapper logic over an abstract libc result (tofloat_exact);
-     values never enter Coq.
+   - integer parsers: full iff statements for EVERY base (an invalid base is refused), RELATIVE to the
+     Gallina model of the strtol family (Model.strto_core / strtos / strtou), which is assumed libc
+     behaviour and is compared with the real libc on every run of the check; the wrappers' C text is
+     tied to the model by gen_parsers_eq (leaf translator, regenerated on every run).
+   - float parsers: only the wrapper logic over an abstract libc result (tofloat_exact): every range
+     error libc reports (overflow AND underflow) is a failure; values never enter Coq.
+   - lstrip/rstrip/startswith/endswith: the C text is tied to the model by gen_strip_eq and
+     gen_startswith_endswith_eq (loops translated as iteration functions).
    - path functions: path_no_overflow and path_terminated in full (all inputs, all sizes,
      reads of the output buffer included).  path_algebra in full: normpath equals the
      component algebra (names, "..", optional leading "/" or "./"; ".." removes the preceding
@@ -22,9 +25,11 @@
      other than separators, NUL and two adjacent dots.
    - strip/startswith/endswith/find/count: full statements against list specifications
      (count: the greedy left-to-right count of non-overlapping occurrences, which is unique).
-   - hex round trip and rejection, endian swap involutions: full. *)
-From MV Require Import C20.Model C20.GenEq gen.Params_C20
-  C20.ProofsNpo2 C20.ProofsStr C20.ProofsCount C20.ProofsParse C20.ProofsPath C20.ProofsHex
+   - hex round trip and rejection, endian swap involutions: full; the swap macros on operands of every
+     integer type (endian_swap_any_operand).
+   - NULL arguments where str.c checks them (null_arguments_refused). *)
+From MV Require Import C20.Model C20.Loop C20.GenEq C20.GenParse C20.GenLoop gen.Params_C20
+  C20.ProofsNpo2 C20.ProofsStr C20.ProofsCount C20.ProofsParse C20.ProofsPath C20.ProofsHex C20.ProofsSwapT C20.ProofsNull
   C20.ProofsAlg C20.ProofsAlg2 C20.ProofsAlg3 C20.ProofsAlg4 C20.ProofsNorm C20.ProofsNorm2 C20.ProofsNorm3.
 
 (* ---------------- leaf translator obligations (DESIGN.md 4.4) ---------------- *)
@@ -48,6 +53,45 @@ Theorem gen_last_sep_scan_eq :
 Proof. exact (conj gen_basename_sep_eq_l gen_dirname_sep_eq_l). Qed.
 Print Assumptions gen_last_sep_scan_eq.
 
+(* the six integer parsers: the WHOLE wrapper body as written in str.c (NULL checks, base check, errno reset,
+   the strtol-family call, end-pointer tests, range / sign chain, store through pval, return codes), translated on
+   every run into gen_toX over an abstract libc result, and run with the Gallina libc model on an arbitrary
+   NUL-free string (None = NULL pointer), arbitrary errno and *pval on entry, is the model's parser *)
+Theorem gen_parsers_eq : forall s p0 base errno0 pval0, nonzero_opt s ->
+  run_gen gen_toi strtol_model s p0 base errno0 pval0 = parse_c (toi base) s p0 /\
+  run_gen gen_tou strtoul_model s p0 base errno0 pval0 = parse_c (tou base) s p0 /\
+  run_gen gen_tol strtol_model s p0 base errno0 pval0 = parse_c (tol base) s p0 /\
+  run_gen gen_toul strtoul_model s p0 base errno0 pval0 = parse_c (toul base) s p0 /\
+  run_gen gen_toll strtol_model s p0 base errno0 pval0 = parse_c (toll base) s p0 /\
+  run_gen gen_toull strtoul_model s p0 base errno0 pval0 = parse_c (toull base) s p0.
+Proof. exact gen_parsers_eq_l. Qed.
+Print Assumptions gen_parsers_eq.
+
+(* ... and each wrapper calls the member of the family its type needs (1 strtol, 2 strtoul, 3 strtoll, 4 strtoull) *)
+Theorem gen_parser_libc :
+  gen_toi_libc = 1%Z /\ gen_tou_libc = 2%Z /\ gen_tol_libc = 1%Z /\ gen_toul_libc = 2%Z /\
+  gen_toll_libc = 3%Z /\ gen_toull_libc = 4%Z.
+Proof. exact gen_parser_libc_l. Qed.
+Print Assumptions gen_parser_libc.
+
+(* muggle_str_lstrip_idx / rstrip_idx / startswith / endswith: the C text, translated on every run into
+   <prelude> ; run_loop (one iteration as a function, the epilogue folded in) - or into a loop-free term over
+   mem_eq when the text uses memcmp - returns exactly the model's value, NULL pointers (None) included, for
+   every string shorter than 2^31 (the strip functions hold the length in an int) resp. 2^63 *)
+Theorem gen_strip_eq :
+  (forall so, (zlen (str_of so) < 2 ^ 31)%Z -> gen_lstrip_idx (is_null so) (str_of so) = Some (lstrip_idx_c so)) /\
+  (forall so, (zlen (str_of so) < 2 ^ 31)%Z -> gen_rstrip_idx (is_null so) (str_of so) = Some (rstrip_idx_c so)).
+Proof. exact (conj gen_lstrip_eq_l gen_rstrip_eq_l). Qed.
+Print Assumptions gen_strip_eq.
+
+Theorem gen_startswith_endswith_eq :
+  (forall so po, (zlen (str_of so) < 2 ^ 63)%Z -> (zlen (str_of po) < 2 ^ 63)%Z ->
+     gen_startswith (is_null so) (is_null po) (str_of so) (str_of po) = Some (b2z (startswith_c so po))) /\
+  (forall so po, (zlen (str_of so) < 2 ^ 63)%Z -> (zlen (str_of po) < 2 ^ 63)%Z ->
+     gen_endswith (is_null so) (is_null po) (str_of so) (str_of po) = Some (b2z (endswith_c so po))).
+Proof. exact (conj gen_startswith_eq_l gen_endswith_eq_l). Qed.
+Print Assumptions gen_startswith_endswith_eq.
+
 (* ---------------- next_pow_of_2 ---------------- *)
 (* On 1 <= x <= 2^63 the result is a power of two, not below x, and the least such. *)
 Theorem npo2_least_pow2 : forall x : N, (1 <= x)%N -> (x <= 2 ^ 63)%N ->
@@ -63,42 +107,47 @@ Proof. exact (conj npo2_zero_l npo2_above_l). Qed.
 Print Assumptions npo2_outside_domain.
 
 (* ---------------- integer parsers ---------------- *)
-(* success with value v  <->  the string is blanks, optional sign, one numeral of the
-   base (0x / 0 prefixes as in C), blanks, and v is in the type's range *)
-Theorem toi_exact : forall base s v, valid_base base ->
-  (toi base s = Some v <-> well_formed base s v /\ (INT_MIN <= v <= INT_MAX)%Z).
+(* success with value v  <->  the base is one the strtol family accepts (0 or 2..36), the string is
+   blanks, optional sign, one numeral of the base (0x / 0 prefixes as in C), blanks, and v is in the
+   type's range.  EVERY base: any other base is refused (repaired: the unchanged wrappers read the
+   end pointer glibc leaves unset for such a base). *)
+Theorem toi_exact : forall base s v,
+  toi base s = Some v <-> valid_base base /\ well_formed base s v /\ (INT_MIN <= v <= INT_MAX)%Z.
 Proof. exact toi_exact_l. Qed.
 Print Assumptions toi_exact.
 
-Theorem tou_exact : forall base s v, valid_base base ->
-  (tou base s = Some v <-> well_formed base s v /\ (0 <= v <= UINT_MAX)%Z).
+Theorem tou_exact : forall base s v,
+  tou base s = Some v <-> valid_base base /\ well_formed base s v /\ (0 <= v <= UINT_MAX)%Z.
 Proof. exact tou_exact_l. Qed.
 Print Assumptions tou_exact.
 
-Theorem tol_exact : forall base s v, valid_base base ->
-  (tol base s = Some v <-> well_formed base s v /\ (LONG_MIN <= v <= LONG_MAX)%Z).
+Theorem tol_exact : forall base s v,
+  tol base s = Some v <-> valid_base base /\ well_formed base s v /\ (LONG_MIN <= v <= LONG_MAX)%Z.
 Proof. exact tol_exact_l. Qed.
 Print Assumptions tol_exact.
 
-Theorem toul_exact : forall base s v, valid_base base ->
-  (toul base s = Some v <-> well_formed base s v /\ (0 <= v <= ULONG_MAX)%Z).
+Theorem toul_exact : forall base s v,
+  toul base s = Some v <-> valid_base base /\ well_formed base s v /\ (0 <= v <= ULONG_MAX)%Z.
 Proof. exact toul_exact_l. Qed.
 Print Assumptions toul_exact.
 
-Theorem toll_exact : forall base s v, valid_base base ->
-  (toll base s = Some v <-> well_formed base s v /\ (LONG_MIN <= v <= LONG_MAX)%Z).
+Theorem toll_exact : forall base s v,
+  toll base s = Some v <-> valid_base base /\ well_formed base s v /\ (LONG_MIN <= v <= LONG_MAX)%Z.
 Proof. exact tol_exact_l. Qed.
 Print Assumptions toll_exact.
 
-Theorem toull_exact : forall base s v, valid_base base ->
-  (toull base s = Some v <-> well_formed base s v /\ (0 <= v <= ULONG_MAX)%Z).
+Theorem toull_exact : forall base s v,
+  toull base s = Some v <-> valid_base base /\ well_formed base s v /\ (0 <= v <= ULONG_MAX)%Z.
 Proof. exact toul_exact_l. Qed.
 Print Assumptions toull_exact.
 
-(* float parsers: wrapper logic only, over the abstract libc result *)
-Theorem tofloat_exact : forall s consumed is_inf er,
-  tofloat s consumed is_inf er = true <->
-  consumed <> 0%nat /\ Forall blank (skipn consumed s) /\ ~ (is_inf = true /\ er = true).
+(* float parsers: wrapper logic only, over the abstract libc result (characters consumed, ERANGE was
+   reported).  Success <-> something was converted, only blanks follow, and libc reported NO range error:
+   neither overflow nor underflow (repaired: the unchanged wrappers accepted a numeral that underflowed,
+   storing 0.0 or a subnormal that lost precision - "never a silently truncated value") *)
+Theorem tofloat_exact : forall s consumed er,
+  tofloat s consumed er = true <->
+  consumed <> 0%nat /\ Forall blank (skipn consumed s) /\ er = false.
 Proof. exact tofloat_exact_l. Qed.
 Print Assumptions tofloat_exact.
 
@@ -258,6 +307,19 @@ Theorem greedy_count_unique : forall s sub e, (0 < zlen sub)%Z -> forall pos n1,
 Proof. exact greedy_unique. Qed.
 Print Assumptions greedy_count_unique.
 
+(* NULL pointers (None) where str.c checks for them: the failure value, whatever the other arguments;
+   with real strings the *_c functions are the list functions specified above and in the parser theorems *)
+Theorem null_arguments_refused :
+  (forall p, startswith_c None p = false) /\ (forall s, startswith_c s None = false) /\
+  (forall p, endswith_c None p = false) /\ (forall s, endswith_c s None = false) /\
+  lstrip_idx_c None = (-1)%Z /\ rstrip_idx_c None = (-1)%Z /\
+  (forall sub a b, str_find_c None sub a b = (-1)%Z) /\ (forall s a b, str_find_c s None a b = (-1)%Z) /\
+  (forall sub a b, str_count_c None sub a b = 0%Z) /\ (forall s a b, str_count_c s None a b = 0%Z) /\
+  (forall A (f : list Z -> option A) p0, parse_c f None p0 = None) /\
+  (forall A (f : list Z -> option A) s, parse_c f s true = None).
+Proof. exact null_arguments_refused_l. Qed.
+Print Assumptions null_arguments_refused.
+
 (* ---------------- hex, endian ---------------- *)
 Theorem hex_roundtrip : forall b, Forall (fun x => (0 <= x < 256)%Z) b ->
   hex_to_bytes (hex_from_bytes b) (length b) = Some b.
@@ -282,3 +344,20 @@ Theorem endian_swap_range :
   (forall v, (swap16 v < 2 ^ 16)%N) /\ (forall v, (swap32 v < 2 ^ 32)%N) /\ (forall v, (swap64 v < 2 ^ 64)%N).
 Proof. exact (conj swap16_range_l (conj swap32_range_l swap64_range_l)). Qed.
 Print Assumptions endian_swap_range.
+
+(* operands of EVERY integer type: the macro's value depends only on the low N bits of the operand's two's
+   complement pattern (so it is the same for int8..int64 / uint8..uint64 operands that agree on those bits,
+   negative values and INT_MIN included) and the nested round trip returns exactly those N bits; [operand]
+   is the 64-bit pattern of an object of the given width and signedness, and an intN_t / uintN_t object is
+   restored bit for bit by the round trip of its own macro *)
+Theorem endian_swap_any_operand :
+  (forall x, swap16 x = swap16 (x mod 2 ^ 16) /\ swap16 (swap16 x) = x mod 2 ^ 16)%N /\
+  (forall x, swap32 x = swap32 (x mod 2 ^ 32) /\ swap32 (swap32 x) = x mod 2 ^ 32)%N /\
+  (forall x, swap64 x = swap64 (x mod 2 ^ 64) /\ swap64 (swap64 x) = x mod 2 ^ 64)%N /\
+  (forall bits sg v, (0 < bits)%N -> (bits <= 64)%N ->
+     (operand bits sg v < 2 ^ 64)%N /\ (operand bits sg v mod 2 ^ bits = v mod 2 ^ bits)%N) /\
+  (forall sg v, (swap16 (swap16 (operand 16 sg v)) = v mod 2 ^ 16)%N /\
+                (swap32 (swap32 (operand 32 sg v)) = v mod 2 ^ 32)%N /\
+                (swap64 (swap64 (operand 64 sg v)) = v mod 2 ^ 64)%N).
+Proof. exact endian_swap_any_operand_l. Qed.
+Print Assumptions endian_swap_any_operand.
